@@ -905,7 +905,15 @@ def run(ck):
     res = {}
     def run_model():
         t1 = time.time()
-        rc, m, _ = ck.run_lines(drv, mcases)
+        k = 3                                                   # three driver processes side by side
+        parts = [mcases[i * len(mcases) // k:(i + 1) * len(mcases) // k] for i in range(k)]
+        outs = [None] * k
+        def one(i):
+            outs[i] = ck.run_lines(drv, parts[i])[1] if parts[i] else []
+        ts = [threading.Thread(target=one, args=(i,)) for i in range(k)]
+        for t in ts: t.start()
+        for t in ts: t.join()
+        m = [x for o in outs for x in o]
         res["model"] = gn_postprocess(mcases, m)
         ck.log("model: %d cases in %.1fs" % (len(mcases), time.time() - t1))
     def run_asan():
